@@ -454,7 +454,7 @@ Lemma C14_emitted_safe_lemma :
 Proof. intros ops G. apply emitted_safe_of_inv. apply run_inv; [assumption | apply init_inv]. Qed.
 
 (* ---- a response and its copy ---- *)
-Definition guarded_pop (p : pop) : Prop := match p with POn _ o => guarded_op o | PCopy => True end.
+Definition guarded_pop (p : pop) : Prop := match p with POn _ o => guarded_op o | _ => True end.
 
 Definition pinv (st : pstate) : Prop := inv (fst st) /\ forall c, snd st = Some c -> inv c.
 
@@ -468,7 +468,7 @@ Qed.
 
 Lemma pstep_inv st p : guarded_pop p -> pinv st -> pinv (fst (fst (pstep st p))).
 Proof.
-  intros G [Hr Hc]. destruct st as [r c]. destruct p as [oc o|]; simpl in *.
+  intros G [Hr Hc]. destruct st as [r c]. destruct p as [oc o| |]; simpl in *.
   - destruct oc.
     + destruct c as [cs|]; [|split; assumption].
       pose proof (step_inv cs o G (Hc cs eq_refl)) as H.
@@ -476,6 +476,9 @@ Proof.
     + pose proof (step_inv r o G Hr) as H. destruct (step r o) as [r' e]. simpl in *. split; assumption.
   - destruct (copy_of r) as [cs|e] eqn:E; simpl; [|split; assumption].
     split; [assumption|]. intros x [= <-]. eapply copy_inv; eassumption.
+  - destruct c as [cs|]; simpl; [|split; assumption].
+    destruct (Hc cs eq_refl) as [Hs Hj]. destruct Hr as [Hs' Hj'].
+    split; [|exact Hc]. split; simpl; [exact Hs|]. destruct (st_jar cs); assumption.
 Qed.
 
 Lemma prun_inv ps : forall st, Forall guarded_pop ps -> pinv st -> pinv (prun st ps).
